@@ -23,11 +23,11 @@
    Echo generator (prng.h, section prng-echo): "repeats the data buffer passed at the
    initialisation".
 
-   COMBO generator (prng.h, section prng-combo, G. Marsaglia, keynote.ps of the DIEHARD CD-ROM):
-       x_n = x_{n-1} * x_{n-2} mod 2^32,   z_n = 30903 * (z_{n-1} mod 2^16) + floor(z_{n-1} / 2^16),
-       output word number n = x_n + z_n mod 2^32, written as 4 octets, little-endian.
-   The header fixes neither the initial values nor the seeding; ComboStream takes them as
-   parameters.  (See the builder's report: the code computes x_n = x_{n-2}^2.)
+   COMBO generator (prng.h, section prng-combo): the header names the author (G. Marsaglia, keynote.ps of
+   the DIEHARD CD-ROM) but defines neither the recurrence nor the seeding, so no recurrence is pinned
+   here (coordinator's ruling; the deviation of the code from Marsaglia's x_n = x_{n-1} x_{n-2} is
+   recorded as an observation in DESIGN.md).  What prng.h does state is judged in Trace_Misc: the stream
+   is determined by the seed and does not depend on the fragmentation of the requests.
 
    All generators implement the interface gen_i: the stream is a function of the initial state
    only, however the caller fragments its requests (an instance of property C10). *)
@@ -58,31 +58,6 @@ STBOut(z, n) == STBOutWith(z, n, RotLo1)
 
 \* ---- Echo
 EchoOut(seed, n) == [k \in 1..n |-> seed[((k - 1) % Len(seed)) + 1]]
-
-\* ---- COMBO: 32-bit words are 4 octets, little-endian
-Mul32(a, b) ==       \* a * b mod 2^32, schoolbook on octets
-  LET col(k) == FoldLeft(LAMBDA acc, i : acc + (a[i] * b[k + 1 - i]), 0, Upto(k))      \* k = 1..4
-      c1 == col(1)
-      c2 == col(2) + (c1 \div 256)
-      c3 == col(3) + (c2 \div 256)
-      c4 == col(4) + (c3 \div 256)
-  IN <<c1 % 256, c2 % 256, c3 % 256, c4 % 256>>
-Add32(a, b) ==
-  LET c1 == a[1] + b[1]
-      c2 == a[2] + b[2] + (c1 \div 256)
-      c3 == a[3] + b[3] + (c2 \div 256)
-      c4 == a[4] + b[4] + (c3 \div 256)
-  IN <<c1 % 256, c2 % 256, c3 % 256, c4 % 256>>
-MwcNext(z) == LET lo == z[1] + (256 * z[2])   hi == z[3] + (256 * z[4])
-                  t == (30903 * lo) + hi                 \* < 2^31
-              IN <<t % 256, (t \div 256) % 256, (t \div 65536) % 256, t \div 16777216>>
-\* the first n octets of the stream from x_{-1} = xa, x_0 = xb, z_0 = z0
-ComboStream(xa, xb, z0, n) ==
-  LET res == FoldLeft(LAMBDA a, i : LET x == Mul32(a.y, a.x)
-                                        z == MwcNext(a.z)
-                                    IN [x |-> a.y, y |-> x, z |-> z, out |-> a.out \o Add32(x, z)],
-                      [x |-> xa, y |-> xb, z |-> z0, out |-> <<>>], Upto((n + 3) \div 4))
-  IN TakeN(res.out, n)
 
 \* ---- anchor: the vector of prng_test.c (prngSTBStart(state, 0); prngSTBStepR(buf, 128, state))
 STBTestVector ==
